@@ -603,32 +603,37 @@ theorem read_chunk_ok (E : AeadEnv α A k) (r : stream_Reader α) (p : Bytes) (l
       exact rfl, ?_⟩
     exact ⟨rfl, rfl, ⟨hbl, c5, c6, rfl, rfl, rfl, fun _ => rfl⟩, rfl⟩
   | true =>
+    have hmk : Go.makeList (0 : UInt8) (1 : Int) = .ok [0] := rfl
     cases sd with
     | nil =>
-      have q1 : (decide (Go.len ([] : Bytes) > 0) || Go.io_srcErr == none) = false := by decide
-      have q2 : (decide (Go.len ([] : Bytes) > 0) || Go.io_EOF == none) = false := by decide
-      have q3 : (Go.io_srcErr != Go.io_EOF) = true := by decide
       cases sf with
       | true =>
+        have hrf : Go.io_ReadFull ⟨[], true⟩ (Go.len ([0] : Bytes)) = ([], Go.io_srcErr, ⟨[], true⟩) := by simp [Go.io_ReadFull, Go.len]
+        have q1 : decide (Go.len ([] : Bytes) > 0) = false := by decide
+        have q3 : (Go.io_srcErr != Go.io_EOF) = true := by decide
         refine ⟨_, by
           simp only [stream_Reader_Read, hr1, Bool.false_eq_true, if_false, hr2, bne_self_eq_false, hp, hgo,
-            bind, Except.bind, c1, c3, take_len_take, writeAt_zero, c4, pure, Except.pure, if_true, Go.io_Read,
+            bind, Except.bind, c1, c3, take_len_take, writeAt_zero, c4, pure, Except.pure, if_true, hmk, hrf,
             q1, q3]
           exact rfl, ?_⟩
         exact ⟨rfl, rfl, ⟨hbl, c5, c6, rfl, rfl, .inr rfl, fun h => by cases h⟩, rfl⟩
       | false =>
+        have hrf : Go.io_ReadFull ⟨[], false⟩ (Go.len ([0] : Bytes)) = ([], Go.io_EOF, ⟨[], false⟩) := by simp [Go.io_ReadFull, Go.len]
+        have q1 : decide (Go.len ([] : Bytes) > 0) = false := by decide
+        have q2 : (Go.io_EOF != Go.io_EOF) = false := by decide
         refine ⟨_, by
           simp only [stream_Reader_Read, hr1, Bool.false_eq_true, if_false, hr2, bne_self_eq_false, hp, hgo,
-            bind, Except.bind, c1, c3, take_len_take, writeAt_zero, c4, pure, Except.pure, if_true, Go.io_Read,
-            q2]
+            bind, Except.bind, c1, c3, take_len_take, writeAt_zero, c4, pure, Except.pure, if_true, hmk, hrf,
+            q1, q2]
           exact rfl, ?_⟩
         exact ⟨rfl, rfl, ⟨hbl, c5, c6, rfl, rfl, rfl, fun h => by cases h⟩, rfl⟩
     | cons x rest =>
-      have q4 : (decide (Go.len ((x :: rest).take (1 : Int).toNat) > 0) || (none : Option Go.Err) == none) = true := by
-        rw [beq_self_eq_true, Bool.or_true]
+      have hrf : Go.io_ReadFull ⟨x :: rest, sf⟩ (Go.len ([0] : Bytes)) = ([x], none, ⟨rest, sf⟩) := by
+        simp [Go.io_ReadFull, Go.len]
+      have q4 : decide (Go.len ([x] : Bytes) > 0) = true := by simp [Go.len]
       refine ⟨_, by
         simp only [stream_Reader_Read, hr1, Bool.false_eq_true, if_false, hr2, bne_self_eq_false, hp, hgo,
-          bind, Except.bind, c1, c3, take_len_take, writeAt_zero, c4, pure, Except.pure, if_true, Go.io_Read,
+          bind, Except.bind, c1, c3, take_len_take, writeAt_zero, c4, pure, Except.pure, if_true, hmk, hrf,
           q4]
         exact rfl, ?_⟩
       exact ⟨rfl, rfl, ⟨hbl, c5, c6, rfl, rfl, rfl, fun h => by cases h⟩, rfl⟩
